@@ -13,7 +13,7 @@ def run(tier, seed):
     ck.assume('adjacency matrices are boolean arguments (each graph is one path; the solver shows no graph is left)',
               'workbook level: formula kinds and the guard value are boolean selectors; the oracle is a lazy evaluator over the same ring plus the classification acyclic / unavoidable / must_resolve / free written from the statement (harness/c10_books.py)',
               'schedula workflow clock stubbed')
-    ck.out_of_scope('graphs with more than 4 nodes', 'cycles through ranges and defined names', 'cell order and PYTHONHASHSEED independence',
+    ck.out_of_scope('graphs with more than 4 nodes', 'cycles through ranges and defined names', 'cell orders other than the 4 listed insertion orders, hash seeds other than the listed ones (2 quick / 5 thorough)',
                     'rings longer than 3 cells')
     quick = tier == 'quick'
     hs, batch = [], Batch()
@@ -28,13 +28,22 @@ def run(tier, seed):
             h = Harness(ck, 'c10_cycles4_%d' % fix, src.replace('__FIX__', str(fix))); hs.append(h)
             batch.add(h, T, only=['cycles4_ok'], bounds='all loop-free digraphs on 4 nodes whose first adjacency row is %s (512 graphs)' % format(fix, '03b'))
         bsrc = open(os.path.join(ROOT, 'harness', 'c10_books.py')).read()
-        for ka in range(6):
-            h = Harness(ck, 'c10_books_a%d' % ka, bsrc.replace('__KIND_A__', str(ka))); hs.append(h)
-            batch.add(h, T, only=['book_ok'], bounds='ring A1->B1->C1->A1, A1 of kind %d, B1 and C1 any of 6 kinds (constant, plain, IF-then, IF-else, IFERROR fallback, both IF branches), guard TRUE/FALSE: 72 workbooks' % ka)
         b2 = open(os.path.join(ROOT, 'harness', 'c10_books2.py')).read()
-        for kb in range(6):
-            h = Harness(ck, 'c10_books2_b%d' % kb, b2.replace('__KB__', str(kb))); hs.append(h)
-            batch.add(h, T, only=['book2_ok'], bounds='B1 = expression #%d (nested IF guards, up to two guarded back references), C1 and D1 any of 4 expressions each, both guards TRUE/FALSE: 64 workbooks with cycles sharing a cell' % kb)
+        # cell order: every workbook is built in 4 insertion orders and must give one outcome; hash seed: the
+        # exploration is repeated in processes under other PYTHONHASHSEED values, which compare every outcome
+        # with a seed-0 child interpreter
+        for hsd in ([0, 1] if quick else [0, 1, 2, 3, 1 + seed % 4000000000]):
+            tag = '# PYTHONHASHSEED = %d\n' % hsd
+            for ka in range(6):
+                if quick and hsd and ka % 2 != seed % 2:
+                    continue
+                h = Harness(ck, 'c10_books_a%d_hs%d' % (ka, hsd), tag + bsrc.replace('__KIND_A__', str(ka))); hs.append(h)
+                batch.add(h, T, only=['book_ok'], bounds='ring A1->B1->C1->A1, A1 of kind %d, B1 and C1 any of 6 kinds (constant, plain, IF-then, IF-else, IFERROR fallback, both IF branches), guard TRUE/FALSE: 72 workbooks x 4 cell orders, PYTHONHASHSEED=%d' % (ka, hsd))
+            for kb in range(6):
+                if quick and hsd and kb % 2 != seed % 2:
+                    continue
+                h = Harness(ck, 'c10_books2_b%d_hs%d' % (kb, hsd), tag + b2.replace('__KB__', str(kb))); hs.append(h)
+                batch.add(h, T, only=['book2_ok'], bounds='B1 = expression #%d (nested IF guards, up to two guarded back references), C1 and D1 any of 4 expressions each, both guards TRUE/FALSE: 64 workbooks with cycles sharing a cell x 4 cell orders, PYTHONHASHSEED=%d' % (kb, hsd))
         batch.run()
     finally:
         for h in hs:
